@@ -200,11 +200,17 @@ You can provide input either as a file (as the first argument) or by piping logs
 					os.Exit(1)
 				}
 				// Always clean up downloaded log files, even if redaction fails
-				defer func() {
+				cleanup := func() {
 					if delErr := client.DeleteClusterLogs(cmd.Context(), files); delErr != nil {
 						fmt.Fprintf(os.Stderr, "Error cleaning up Atlas log files: %v\n", delErr)
 					}
-				}()
+				}
+				defer cleanup()
+				// os.Exit skips deferred calls: failures inside the loop clean up first
+				failAfterCleanup := func() {
+					cleanup()
+					os.Exit(1)
+				}
 				fileReader := &DefaultFileReader{}
 				for i, file := range files {
 					// Compose output file path with serial integer
@@ -212,7 +218,7 @@ You can provide input either as a file (as the first argument) or by piping logs
 					outWriter, err := os.Create(outPath)
 					if err != nil {
 						fmt.Fprintf(os.Stderr, "Error opening output file %s: %v\n", outPath, err)
-						os.Exit(1)
+						failAfterCleanup()
 					}
 					defer outWriter.Close()
 					// Progress bar logic per file
@@ -220,7 +226,7 @@ You can provide input either as a file (as the first argument) or by piping logs
 					totalLines, err := countLines(fileReader, file)
 					if err != nil {
 						fmt.Fprintf(os.Stderr, "Error counting lines in %s: %v\n", file, err)
-						os.Exit(1)
+						failAfterCleanup()
 					}
 					bar = progressbar.NewOptions64(int64(totalLines),
 						progressbar.OptionEnableColorCodes(true),
@@ -248,7 +254,7 @@ You can provide input either as a file (as the first argument) or by piping logs
 					if err := ProcessMongoLogFile(fileReader, file, outWriter, bar); err != nil {
 						fmt.Fprintf(os.Stderr, "Error processing log file %s: %v\n", file, err)
 						outWriter.Close()
-						os.Exit(1)
+						failAfterCleanup()
 					}
 					outWriter.Close()
 				}
